@@ -296,9 +296,43 @@ func c04(r *Run) {
 	// R5
 	cm := r.fn(w, "C04.R5", nmView+"Commit")
 	if cm != nil {
+		// the whole-map copy of the standard library is the same publication (every entry, unconditionally)
+		if cp := findEffects(cm, "call maps.Copy(p0.ts.changedKeys, p0.pendingChangedKeys)"); len(cp) == 1 && len(findEffects(cm, "mapupdate p0.ts.changedKeys[*")) == 0 {
+			r.ok("C04.R5", "Commit:publish-all", r.at(w, cp[0].Ins), "maps.Copy(block diff, pending)")
+			clean := len(findEffects(cm, "call builtin.delete(p0.ts.changedKeys, *")) == 0
+			for _, c := range cp[0].Conds() {
+				if !(strings.HasSuffix(c, " == nil") || strings.HasPrefix(c, "nil == ")) {
+					clean = false
+				}
+			}
+			r.check(clean, "C04.R5", "Commit:unfiltered", r.at(w, cp[0].Ins), "every pending entry is published", "Commit does not publish every pending entry")
+			locks := findEffects(cm, "call (*sync.RWMutex).Lock(p0.ts.l)")
+			held := len(locks) == 1 && effBefore(locks[0], cp[0])
+			for _, u := range findEffects(cm, "call (*sync.RWMutex).Unlock(p0.ts.l)") {
+				if effBefore(u, cp[0]) {
+					held = false // released before the copy (a deferred release is not)
+				}
+			}
+			r.check(held, "C04.R5", "Commit:under-block-lock", r.at(w, cp[0].Ins), "under TState.l", "Commit does not hold TState.l while publishing")
+			return
+		}
 		es := r.requireEffect(w, "C04.R5", "Commit:publish-all", cm, "mapupdate p0.ts.changedKeys[next(range(p0.pendingChangedKeys))#1] = next(range(p0.pendingChangedKeys))#2")
 		if es != nil {
-			r.check(len(es[0].Conds()) == 1, "C04.R5", "Commit:unfiltered", r.at(w, es[0].Ins), "every pending entry is published", "Commit filters pending entries: "+strings.Join(es[0].Conds(), " ; "))
+			// every pending entry (value or tombstone): the only condition is the loop's, every way round the loop passes
+			// the publication, and Commit never removes an entry of the block diff
+			unfiltered := len(es[0].Conds()) == 1
+			if h, _ := innermostLoop(es[0].Ins.Block()); h != nil && len(h.Succs) == 2 {
+				hdr := func(i ssa.Instruction) bool { return i.Block() == h && instrIndex(i) == 0 }
+				if skip, _ := pathExists(point{h.Succs[0], 0}, hdr, isInstr(es[0].Ins), nil); skip {
+					unfiltered = false
+				}
+			} else {
+				unfiltered = false
+			}
+			if len(findEffects(cm, "call builtin.delete(p0.ts.changedKeys, *")) > 0 {
+				unfiltered = false
+			}
+			r.check(unfiltered, "C04.R5", "Commit:unfiltered", r.at(w, es[0].Ins), "every pending entry is published", "Commit does not publish every pending entry (a deletion that follows a write of the same block has to stay as a tombstone: the parent may hold the key): "+strings.Join(es[0].Conds(), " ; "))
 			locks := findEffects(cm, "call (*sync.RWMutex).Lock(p0.ts.l)")
 			r.check(len(locks) == 1 && dominatesI(locks[0].Ins, es[0].Ins) && len(findEffects(cm, "defer (*sync.RWMutex).Unlock(p0.ts.l)")) == 1, "C04.R5", "Commit:under-block-lock", r.at(w, es[0].Ins), "under TState.l", "Commit does not hold TState.l while publishing")
 		}
